@@ -163,6 +163,176 @@ func streamCase(s *cases.Set, pk *pkg, up bool, cs []cmd, kind string) {
 		rp["decode_note"] = decNote
 	}
 	s.Add(cases.Case{Term: term, Key: key, Kind: kind, Nontrivial: true, Replay: rp})
+	// the same calls are repeated later (other order, one P, concurrently); the closures touch
+	// nothing but their own copies and the read-only command values
+	encKeep := append([]byte{}, enc...)
+	s.Remember("encode:"+key, oenc, rp, func() (out string) {
+		defer func() {
+			if recover() != nil {
+				out = cq.Panic
+			}
+		}()
+		b, e := pk.marshal(cs)
+		if e != nil {
+			return cq.Err
+		}
+		return cq.Ok(cq.Bytes(b))
+	})
+	if !pan && err == nil {
+		s.Remember("decode:"+key, odec, rp, func() (out string) {
+			defer func() {
+				if recover() != nil {
+					out = cq.Panic
+				}
+			}()
+			b, e := pk.unmarshal(up, append([]byte{}, encKeep...))
+			if e != nil {
+				return cq.Err
+			}
+			return cq.Ok(cmdsTerm(pk, b))
+		})
+	}
+}
+
+// cmdSize is Command.Size() of one command
+func cmdSize(pk *pkg, c cmd) int {
+	n := -1
+	call("Command.Size", func() error { n = pk.sizes([]cmd{c})[0]; return nil })
+	return n
+}
+
+// ladderStream builds a well-formed stream whose encoding has exactly `target` bytes: random
+// in-range commands while they fit, then commands without payload (one byte each); for the
+// fragmentation downlink the rest may be one DataFragment.
+func ladderStream(r *cq.RNG, pk *pkg, up bool, target int, only string) []cmd {
+	gs := gensFor(pk, up)
+	bare := pk.bareDown
+	if up {
+		bare = pk.bareUp
+	}
+	var out []cmd
+	total := 0
+	misses := 0
+	for total < target && misses < 40 {
+		g := gs[r.Intn(len(gs))]
+		if only != "" {
+			for _, x := range gs {
+				if x.name == only {
+					g = x
+				}
+			}
+		}
+		if g.name == "DataFragment" {
+			misses++
+			continue
+		}
+		c := cmd{g.cid, g.mk(r, inRange)}
+		n := cmdSize(pk, c)
+		if n < 1 || total+n > target {
+			misses++
+			continue
+		}
+		out = append(out, c)
+		total += n
+	}
+	rest := target - total
+	if pk.name == "fragmentation" && !up && rest >= 3 && r.Bool() {
+		for _, g := range gs {
+			if g.name == "DataFragment" {
+				p := g.mk(r, inRange)
+				setDataFragmentPayload(p, r.Bytes(rest-3))
+				out = append(out, cmd{g.cid, p})
+				rest = 0
+			}
+		}
+	}
+	for ; rest > 0; rest-- {
+		out = append(out, cmd{bare[r.Intn(len(bare))], nil})
+	}
+	return out
+}
+
+// keptCase: what a receive loop does. A is decoded into a variable, the application keeps a
+// (shallow) copy of the result, then B is decoded into the same variable: the kept copy must
+// still be A, the variable must hold what a fresh decode of B gives, and decoding an empty
+// payload into the used variable must leave what a fresh variable holds (nil or empty as HEAD does).
+func keptCase(s *cases.Set, pk *pkg, up bool, a, b []cmd) {
+	var encA, encB []byte
+	e1, p1, _ := call("Commands.MarshalBinary", func() error { var e error; encA, e = pk.marshal(a); return e })
+	e2, p2, _ := call("Commands.MarshalBinary", func() error { var e error; encB, e = pk.marshal(b); return e })
+	if e1 != nil || e2 != nil || p1 || p2 {
+		return
+	}
+	rp := map[string]interface{}{"api": pk.name + ": var c Commands; c.UnmarshalBinary(up, A); kept := c; c.UnmarshalBinary(up, B)", "uplink": up,
+		"A": fmt.Sprintf("%x", encA), "B": fmt.Sprintf("%x", encB)}
+	key := short(fmt.Sprintf("%s:%s:%x->%x", pk.name, dirName(up), encA, encB))
+	rc := pk.newRecv()
+	var before, after, nowB, freshB string
+	var kept func() []cmd
+	_, pan, _ := call("Commands.UnmarshalBinary(A) then (B) into one variable:"+key, func() error {
+		if e := rc.decode(up, append([]byte{}, encA...)); e != nil {
+			return e
+		}
+		kept = rc.keep()
+		before = cmdsTerm(pk, kept())
+		if e := rc.decode(up, append([]byte{}, encB...)); e != nil {
+			return e
+		}
+		after = cmdsTerm(pk, kept())
+		nowB = cmdsTerm(pk, rc.keep()())
+		fb, e := pk.unmarshal(up, append([]byte{}, encB...))
+		freshB = cmdsTerm(pk, fb)
+		return e
+	})
+	if pan {
+		return
+	}
+	if before != after {
+		rp["kept_copy_before"], rp["kept_copy_after"] = before, after
+		s.Fail(cases.GoFail{Key: "kept-copy-changed:" + key, What: "a copy of the decoded Commands kept by the caller changed when another payload was decoded into the same variable", Replay: rp})
+		return
+	}
+	if nowB != freshB {
+		rp["reused_variable"], rp["fresh_variable"] = nowB, freshB
+		s.Fail(cases.GoFail{Key: "reused-receiver-differs:" + key, What: "decoding into a used Commands variable gives another result than decoding into a fresh one", Replay: rp})
+		return
+	}
+	// empty payload into the used variable vs into a fresh one
+	fresh := pk.newRecv()
+	var usedNil, freshNil bool
+	var usedLen, freshLen int
+	call("Commands.UnmarshalBinary(empty)", func() error {
+		rc.decode(up, nil)
+		fresh.decode(up, nil)
+		usedNil, freshNil, usedLen, freshLen = rc.isNil(), fresh.isNil(), rc.length(), fresh.length()
+		return nil
+	})
+	if usedNil != freshNil || usedLen != freshLen {
+		rp["used_variable_nil_len"], rp["fresh_variable_nil_len"] = fmt.Sprint(usedNil, usedLen), fmt.Sprint(freshNil, freshLen)
+		s.Fail(cases.GoFail{Key: "reused-receiver-differs:empty:" + key, What: "decoding an empty payload into a used Commands variable leaves another value than in a fresh variable", Replay: rp})
+		return
+	}
+	// the same with single commands: first command of A, then first command of B
+	if len(a) > 0 && len(b) > 0 {
+		var a1, b1 []byte
+		call("Commands.MarshalBinary", func() error { a1, _ = pk.marshal(a[:1]); b1, _ = pk.marshal(b[:1]); return nil })
+		var k1 func() cmd
+		var bf, af string
+		call("Command.UnmarshalBinary(A) then (B) into one variable:"+key, func() error {
+			if e := rc.decode1(up, append([]byte{}, a1...)); e != nil {
+				return e
+			}
+			k1 = rc.keep1()
+			bf = cmdTerm(pk, k1())
+			rc.decode1(up, append([]byte{}, b1...))
+			af = cmdTerm(pk, k1())
+			return nil
+		})
+		if bf != af {
+			rp["kept_copy_before"], rp["kept_copy_after"] = bf, af
+			s.Fail(cases.GoFail{Key: "kept-copy-changed:command:" + key, What: "a copy of the decoded Command kept by the caller changed when another command was decoded into the same variable", Replay: rp})
+		}
+	}
 }
 
 // decodeCase: arbitrary bytes into the stream decoder or the single-command decoder.
@@ -481,6 +651,45 @@ func main() {
 			keysCase(s, key, a)
 		}
 	}
+
+	// ---- sequence length ladder: many commands, total encoded size around and far beyond 255 ----
+	for _, pk := range pkgs {
+		for _, up := range []bool{false, true} {
+			for _, target := range []int{200, 254, 255, 256, 257, 300, 512, 1000, 4096} {
+				streamCase(s, pk, up, ladderStream(r, pk, up, target, ""), "sequence-long-"+pk.name)
+			}
+			// the largest payload type of the direction repeated
+			big := map[string]string{"clocksync:false": "AppTimeAns", "clocksync:true": "AppTimeReq", "multicastsetup:false": "McGroupSetupReq", "multicastsetup:true": "McGroupStatusAns",
+				"fragmentation:false": "FragSessionSetupReq", "fragmentation:true": "FragSessionStatusAns", "firmwaremanagement:false": "DevDeleteImageReq", "firmwaremanagement:true": "DevVersionAns"}[fmt.Sprintf("%s:%v", pk.name, up)]
+			for _, target := range []int{255, 260, 330, 700} {
+				streamCase(s, pk, up, ladderStream(r, pk, up, target, big), "sequence-long-"+pk.name)
+			}
+			if thorough {
+				for i := 0; i < 40; i++ {
+					streamCase(s, pk, up, ladderStream(r, pk, up, 100+r.Intn(3000), ""), "sequence-long-"+pk.name)
+				}
+			}
+		}
+	}
+
+	// ---- one variable decoded into repeatedly; the caller keeps copies ----
+	for _, pk := range pkgs {
+		for _, up := range []bool{false, true} {
+			for i := 0; i < 12*mult; i++ {
+				na := 1 + r.Intn(6)
+				nb := 1 + r.Intn(na) // fewer or equal ...
+				if i%4 == 3 {
+					nb = na + 1 + r.Intn(3) // ... and sometimes more
+				}
+				keptCase(s, pk, up, wfStream(r, pk, up, na, inRange), wfStream(r, pk, up, nb, inRange))
+			}
+			keptCase(s, pk, up, ladderStream(r, pk, up, 300, ""), ladderStream(r, pk, up, 120, ""))
+		}
+	}
+
+	// ---- every remembered encode / decode again: other order, on one P, and from 8 goroutines at once ----
+	s.ReplayRemembered(r.Intn, 2, nil)
+	s.ReplayConcurrently(8, 1, 60*time.Second)
 
 	if err := s.Finish(); err != nil {
 		fmt.Fprintln(os.Stderr, err)
